@@ -66,6 +66,8 @@ def classify_second_pass(F, F2):
 
 
 def run(ctx):
+    import time
+    t0 = time.time()
     cache = c17.FormatCache(ctx, ["format"])
     n_inputs = n_jobs = n_changed = n_err_inputs = 0
     unstable = {}            # F -> (sig, detail)
@@ -119,6 +121,7 @@ def run(ctx):
     for st, n in status.items():
         ctx.outcome(f"layout:{st}", n)
 
+    print(f"  [c18] layouts {time.time() - t0:.1f}s inputs={n_inputs}", flush=True)
     # ---- (2) single-piece edits (inputs with parse errors)
     ebases = edit_bases(ctx)
     ctx.bound("edit seeds", len(ebases))
@@ -161,6 +164,7 @@ def run(ctx):
     if n_changed == 0 or n_err_inputs == 0 or n_edit_err == 0 or n_edit_err == n_edits:
         raise Machinery(f"vacuous exploration: changed={n_changed} inputs with parse errors={n_err_inputs} edits={n_edits} broken edits={n_edit_err}")
 
+    print(f"  [c18] edits {time.time() - t0:.1f}s edits={n_edits}", flush=True)
     # ---- (3) real CLI: `garden format --check` on the written file
     targets = list(cli_pool.items())
     extra = [F for F in unstable if F not in cli_pool][:300]
@@ -178,6 +182,7 @@ def run(ctx):
     allF = [F for F, _ in targets] + extra
     with concurrent.futures.ThreadPoolExecutor(16) as ex:
         results = list(ex.map(one, enumerate(allF)))
+    print(f"  [c18] cli {time.time() - t0:.1f}s files={len(allF)}", flush=True)
     n_cli_ok = n_cli_rej = 0
     for F, (rc, err) in zip(allF, results):
         stable = F not in unstable
